@@ -228,7 +228,74 @@ def gen_family(rng, mode="normal", allow_sign=False, allow_stub=False, allow_ove
             "flatten": path != "otfds" and rng.random() < 0.45, "convertCubics": convert,
             "reverse": rng.random() < 0.7, "custom": custom, "optimizeCFF": rng.choice([0, 1, 1]) if path == "otfds" else 0, "lib": "ufoLib2" if rng.random() < 0.75 else "defcon",
             "gentags": tags}
+    subquantum(case, nfull, allow_overflow)
     return case
+
+
+EPS = [2.0 ** -16, 2.0 ** -17, 2.0 ** -15 - 2.0 ** -20]     # all below half an F2Dot14 step (2^-15): invisible after rounding
+# 2x2 with an entry exactly ON the F2Dot14 limit: fontTools' TTGlyphPointPen clamps +2 (MAX_F2DOT14 < v <= 2) and keeps the
+# component, -2 is representable; anything beyond makes the pen decompose the WHOLE glyph - a per-master decision
+LIMIT = [((2, 0, 0, 1), 0, 1), ((1, 0, 0, 2), 3, 1), ((2, 0, 0, 2), 0, 1), ((1, 0, 2, 1), 2, 1), ((1, 2, 0, 1), 1, 1),
+         ((-2, 0, 0, 1), 0, -1), ((1, 0, 0, -2), 3, -1), ((0.5, 0, 0, 2), 3, 1), ((1, 0, -2, 1), 2, -1)]
+
+
+def subquantum(case, nfull, allow_overflow):
+    """stream 'float noise below the F2Dot14 resolution' (added LAST, with its own generator derived from the case, so that the
+    families of the other streams are unchanged): a component's 2x2 differs between sources by less than half an F2Dot14 step
+    (2^-15) in one entry - equal after quantisation, unequal as numbers.  Sub-streams: 'limit' = a new pure composite 'subq' of
+    a simple glyph whose 2x2 has an entry exactly on the F2Dot14 limit (+-2) in some sources and just beyond it in others (only
+    the latter overflow glyf's 2x2 and are decomposed by fontTools' glyph pen while compiling, per master); 'noise' = an
+    existing component gets the noise in one full master."""
+    import random
+    import zlib
+    rng = random.Random(zlib.crc32(json.dumps(case, sort_keys=True).encode()))
+    if rng.random() >= 0.3:
+        return
+    masters, tags = case["masters"], case["gentags"]
+    full = masters[:nfull]
+    everywhere = set(g["name"] for g in full[0])
+    for m in full[1:]:
+        everywhere &= set(g["name"] for g in m)
+    simple = [g["name"] for g in full[0] if g["name"] in everywhere and g["contours"] and not g["components"] and g["name"] != ".notdef"]
+    eps = rng.choice(EPS)
+    if simple and rng.random() < 0.6:
+        base = rng.choice(simple)
+        mat, i, sgn = rng.choice(LIMIT)
+        beyond = list(mat); beyond[i] = mat[i] + sgn * eps
+        k = rng.randrange(nfull)        # the master that is just beyond the limit (any, also the first / default one)
+        both = rng.random() < 0.2       # sometimes two of them
+        second = rng.random() < 0.3     # a second, plain component
+
+        def glyph(j, m):
+            comps = [[base, list(m) + [10 + 8 * j, 4 * j]]]
+            if second:
+                comps.append([base, [1, 0, 0, 1, 300 + 16 * j, 0.5 * j]])
+            return {"name": "subq", "unicodes": [], "width": 700 + 8 * j, "anchors": [], "contours": [], "components": comps}
+        choice = []
+        for j in range(nfull):
+            choice.append(beyond if j == k or (both and j == (k + 1) % nfull and nfull > 2) else list(mat))
+            full[j].append(glyph(j, choice[j]))
+        # sparse sources: some get the composite too (without its base: a placeholder is needed), on either side of the limit
+        for s in case["sources"]:
+            tgt = s.get("glyphs") if s["layer"] is not None else (masters[s["font"]] if s.get("sparse") else None)
+            if tgt is not None and rng.random() < 0.4:
+                tgt.append(glyph(5 + len(tgt), rng.choice(choice)))
+        tags.append("2x2differs:subquantum:limit")
+        return
+    comps = [(g["name"], ci) for g in full[0] if g["name"] in everywhere for ci in range(len(g["components"]))]
+    if not comps:
+        return
+    name, ci = rng.choice(comps)
+    i = rng.randrange(4)
+    k = rng.randrange(1, nfull)
+    g = [x for x in full[k] if x["name"] == name][0]
+    if ci >= len(g["components"]):
+        return
+    v = g["components"][ci][1][i]
+    if not allow_overflow and abs(v) >= 1.5:
+        return
+    g["components"][ci][1][i] = v + rng.choice([eps, -eps])
+    tags.append("2x2differs:subquantum:noise")
 
 
 # ------------------------------------------------------------------ running
